@@ -214,7 +214,7 @@ def driver(case, api):
                "for (var a=-1;a<A.length;a++) for (var b=-1;b<(a<0?0:A.length);b++) { "
                "var R2 = %s; try { var r = (a<0) ? R2[nm]() : (b<0) ? R2[nm](A[a]) : R2[nm](A[a], A[b]); __kind(nm, r) } catch (e) { __kind(nm, e) } } } fns.length"
                % (RECV[recv], ",".join(ARGS), RECV[recv]))
-        out = api.eval_outcome(ctx, src, wall=120.0, cap=30_000_000)
+        out = api.eval_outcome(ctx, src, wall=60.0, cap=30_000_000)
         return [{"id": "callgrid:%s" % recv, "kind": "trace", "seen": [{"k": kk, "at": tag} for (tag, kk) in sorted(kinds)],
                  "o": out["o"], "nfns": out.get("v", {}).get("w") if out["o"] == "value" else None}]
     raise ValueError(k)
